@@ -409,6 +409,23 @@ ROUND6_ADDENDA = {
 }
 for _id, _txt in ROUND6_ADDENDA.items():
     CHECKS[_id]["rule"] += ". Sixth round: " + _txt
+ROUND7_ADDENDA = {
+    "C01": "one session in four runs with a logger that formats every message (as the default debug logger does) and one in four with a DSN carrying parseTime=true&loc=UTC",
+    "C04": "the 'invalid' packet classes include a complete event behind a semi-sync header or a stray byte; resume points include the end of the file a STOP / ROTATE event closes",
+    "C05": "thorough tier: one scenario whose first handler call takes 10.5 s with packets waiting; a rows-query event may be skipped instead of ending the attempt (then the master does not fall silent behind it)",
+    "C06": "for transport causes one scenario in twenty runs with error-level log lines of the reader taking 1.2 s; the refused statement is the one naming binlog_checksum; a rows-query event that is skipped with everything delivered is not a swallowed error",
+    "C07": "the refused statement is the checksum announcement and the failed write is the dump command, whatever else the session sends; labels of a resumed attempt follow the position it asked for",
+    "C08": "sessions with a formatting logger as in C01",
+    "C12": "end-to-end part with DSN parameters as in C01",
+    "C13": "end-to-end part with a formatting logger as in C01",
+    "C14": "objects of 6000 / 7300 members and objects with few keys of 1.7-2.1 KB (key offsets beyond 16 bits)",
+    "C16": "after decoding, the caller's buffer is overwritten: every returned string (database, SQL, file name, server version) must be unchanged",
+    "C17": "two more classes of malformed packet (a complete event behind 0xef+flag, behind a stray 0x00); one injection scenario in three sends a second, header-less packet directly behind the first",
+    "C19": "kind typed56: set text with unsorted, overlapping, nested and touching intervals - membership of the parsed set, and of the set parsed from its printed form, equals the union",
+    "C20": "strings that are themselves (HTML-safe) JSON text; a direct MarshalJSON call is compared with json.Marshal as documents, not bytes",
+}
+for _id, _txt in ROUND7_ADDENDA.items():
+    CHECKS[_id]["rule"] += ". Seventh round and second benign round: " + _txt
 for _id, _c in CHECKS.items():
     if _c.get("fuzz") and _id not in ("C14", "C17"):
         _c["rule"] += ". Thorough tier: the generated part is additionally driven by go's native coverage-guided fuzzer (rapid.MakeFuzz), 45 s on all cores"
